@@ -18,7 +18,7 @@ RULE = ('generated classes using MetaThreadSafeAttributes (1-4 attributes, optio
         'values must be those of the owners\' histories. distinct_nontrivial = distinct (classes, attributes, instances, history length, '
         'ops used) tuples, and for concurrent cases distinct context-switch sequences')
 CASES = {'quick': 1500, 'thorough': 100000}
-BUDGET = {'quick': 40, 'thorough': 300}
+BUDGET = {'quick': 150, 'thorough': 300}
 REQUIRE = {'statements': 10000, 'reads_compared': 50000, 'fresh_instance_reads': 2000, 'subclass_cases': 100,
            'concurrent_runs': 150, 'concurrent_reads_of_foreign_instance': 300, 'switch_inside_descriptor': 100}
 ASSUME = ['lost updates / errors / deadlocks on ONE shared instance are C27; the concurrent cases here let only the owner thread write an instance', 'one statement per source line']
